@@ -27,6 +27,10 @@ Check (C08_rollback_to_durable :
   Inv st -> rollback_op r -> snd (step st r) = StOk ->
   let st' := fst (step st r) in
   s_fs st' = Idle /\ s_bc st' = 0 /\ ram_synced st' /\ s_kv st' = s_kv st).
+Check (C08_rollback_drops_sessions :
+  forall st c f fl,
+  s_fs st = Armed f fl -> f <> 0 -> fget f (k_fabs (s_kv st)) = None ->
+  sess_ctx (expire st c) (SC f) = None /\ fget f (s_fabs (expire st c)) = None).
 Check (C08_commit_atomic :
   forall st s fault,
   Inv st -> fault <> 2 ->
